@@ -134,7 +134,21 @@ def check(case, rec=None):
                 Z = np.full((ns + 2) * (nf + 2), case["poison"], np.int32)
                 ok, n2 = guard(cImageD11.sparse_connectedpixels_splat, v, i, j, th, sl, Z, ns, nf)
             elif name == "sparseframe":
-                fr = sparseframe.sparse_frame(i, j, im.shape, pixels={"intensity": v})
+                if case["spec"]["seed"] % 2:
+                    # pixels collected in another order (e.g. per module of the detector), put in order with sort()
+                    pm = np.random.RandomState((case["spec"]["seed"] + 7) % (2 ** 32)).permutation(nnz)
+                    fr = sparseframe.sparse_frame(i[pm], j[pm], im.shape, pixels={"intensity": v[pm]})
+                    ok, e_ = guard(fr.sort)
+                    if not ok:
+                        fails.append(exc_failure("sparse_frame.sort", e_))
+                        continue
+                    if not (np.array_equal(fr.row, i) and np.array_equal(fr.col, j) and
+                            np.array_equal(fr.pixels["intensity"], v)):
+                        fails.append(fail("order", "sparse_frame.sort() of a %d x %d frame does not give the pixels in "
+                                          "slow / fast order with their own intensities" % im.shape, target=name))
+                        continue
+                else:
+                    fr = sparseframe.sparse_frame(i, j, im.shape, pixels={"intensity": v})
                 # the frame may carry the cut it was segmented with; an explicit threshold (0 included) overrides
                 # it, threshold=None means "use the recorded one"
                 mode = (case["spec"]["seed"] + case["levels"]) % 3
